@@ -42,7 +42,6 @@ impl From<octets::BufferTooShortError> for SerializationError {
 /// rule D8: the `Packet::Ack` arm of to_bytes uses `iter().rev()` (not in Verus' subset); nothing is concluded about it
 #[verifier::external_body]
 pub fn to_bytes_ack_arm_unverified(p: &Packet, b: &mut octets::OctetsMut) -> (r: Result<usize, SerializationError>)
-    ensures final(b).inv(),      // model invariant of the cursor type (offset within the buffer), true of every real OctetsMut
 { unimplemented!() }
 
 impl Packet {
@@ -59,18 +58,15 @@ impl Packet {
 //@replacearm /Packet::Ack \{ sequence, ack_ranges \} => \{/ => return to_bytes_ack_arm_unverified(self, b);
 //@spec
         requires
-            old(b).inv(),
             packet_encodable(*self),
         ensures
-            final(b).inv(),
             !(*self is Ack) ==> {
                 // serialization fails only if the buffer is shorter than the packet's wire length, and writes exactly that many bytes
                 &&& (r is Ok <==> old(b).cap_spec() >= wire_len(*self))                                   // @C13 to_bytes.fails_only_when_buffer_too_short
-                &&& (r matches Ok(n) ==> n == wire_len(*self) && final(b).off() == old(b).off() + n)     // @C13,C16 to_bytes.writes_exactly_wire_len
+                &&& (r matches Ok(n) ==> n == wire_len(*self) && final(b).cap_spec() + n == old(b).cap_spec())     // @C13,C16 to_bytes.writes_exactly_wire_len
                 // (that the error value is BufferTooShort is not stated: this Verus version leaves the `?` From-conversion unspecified)
             },
 //@entry
-        let ghost off0 = b.off();
         let ghost cap0 = b.cap_spec();
         proof {
             if *self is SmallReliable { lemma_reliable_body_take(self->SmallReliable_messages@); }
@@ -78,10 +74,9 @@ impl Packet {
         }
 //@loop 1 iter=it1
                     invariant
-                        b.inv(), b.buf().len() == old(b).buf().len(),
                         it1.seq().len() == messages@.len(),
                         forall|i: int| 0 <= i < messages@.len() ==> *(#[trigger] it1.seq()[i]) == messages@[i],
-                        b.off() == off0 + 1 + vl(*sequence) + 1 + 2 + small_reliable_body(messages@.take(it1.index() as int)),
+                        b.cap_spec() + 1 + vl(*sequence) + 1 + 2 + small_reliable_body(messages@.take(it1.index() as int)) == cap0,
 //@after /for \(message_id, message\) in messages \{/
                     proof {
                         let k = it1.index() as int;
@@ -100,10 +95,9 @@ impl Packet {
                     }
 //@loop 2 iter=it2
                     invariant
-                        b.inv(), b.buf().len() == old(b).buf().len(),
                         it2.seq().len() == messages@.len(),
                         forall|i: int| 0 <= i < messages@.len() ==> *(#[trigger] it2.seq()[i]) == messages@[i],
-                        b.off() == off0 + 1 + vl(*sequence) + 1 + 2 + small_unreliable_body(messages@.take(it2.index() as int)),
+                        b.cap_spec() + 1 + vl(*sequence) + 1 + 2 + small_unreliable_body(messages@.take(it2.index() as int)) == cap0,
 //@endfn
 
 //@fn renet/src/packet.rs Packet::from_bytes
@@ -111,23 +105,18 @@ impl Packet {
 //@safety C06
 //@attr #[verifier::loop_isolation(false)]
 //@spec
-        requires
-            old(b).inv(),        // no assumption on the bytes themselves: any datagram
+        // no precondition: any datagram
         ensures
-            final(b).inv(),
             r matches Ok(p) ==> packet_wire_valid(p),                    // @C06,C16 from_bytes.decoded_packet_is_wire_valid
 //@loop 1
                     invariant
-                        b.inv(),
                         sequence < 0x4000_0000_0000_0000,
                         forall|i: int| 0 <= i < messages@.len() ==> (#[trigger] messages@[i]).0 < 0x4000_0000_0000_0000,
 //@loop 2
                     invariant
-                        b.inv(),
                         sequence < 0x4000_0000_0000_0000,
 //@loop 3
                     invariant
-                        b.inv(),
                         sequence < 0x4000_0000_0000_0000,
                         ack_ranges@.len() >= 1,
                         ranges_desc_wf(ack_ranges@),
